@@ -24,3 +24,35 @@ pub(crate) static mut ROTATE_NOW: bool = false;
 pub(crate) fn stub_is_open_chunk_full<T: Types>(_w: &RaftLogWAL<T>) -> bool {
     unsafe { ROTATE_NOW }
 }
+
+/// Stub for `RaftLogWAL::send_request` that records what the caller hands to
+/// the worker (used by c04_flush_request_shape): the Write requests of the last
+/// calls with their sync flag, end offset, data length and callback presence.
+#[derive(Clone, Copy)]
+pub(crate) struct SentWrite {
+    pub sync: bool,
+    pub upto: u64,
+    pub len: usize,
+    pub has_cb: bool,
+}
+pub(crate) static mut SENT_WRITES: [SentWrite; 4] = [SentWrite { sync: false, upto: 0, len: 0, has_cb: false }; 4];
+pub(crate) static mut N_SENT_WRITES: usize = 0;
+pub(crate) static mut N_SENT_OTHER: usize = 0;
+
+pub(crate) fn stub_send_request<T: Types>(w: &mut RaftLogWAL<T>, req: WorkerRequest<T>) -> Result<(), io::Error> {
+    w.sent_seq += 1;
+    match req {
+        WorkerRequest::Write(wr) => unsafe {
+            if N_SENT_WRITES < 4 {
+                SENT_WRITES[N_SENT_WRITES] = SentWrite { sync: wr.sync, upto: wr.upto_offset, len: wr.data.len(), has_cb: wr.callback.is_some() };
+            }
+            N_SENT_WRITES += 1;
+            core::mem::forget(wr);
+        },
+        other => {
+            unsafe { N_SENT_OTHER += 1 };
+            core::mem::forget(other);
+        }
+    }
+    Ok(())
+}
